@@ -17,6 +17,7 @@ Record oshared := mkO {
   o_bad_access : Z }.           (* ghost: accesses to a runner that was already destroyed *)
 
 Inductive opc :=
+| OEntry                        (* collaborative_call_once(): if (m_state.load() != done) do_collaborative_call_once(...) *)
 | OStart                        (* expected = m_state.load() *)
 | OTop (expected : word)        (* top of the do-while *)
 | OWinRun (attempt_throws : bool)   (* winner: running the user function *)
@@ -44,6 +45,7 @@ Definition ostep (tid : nat) (g : oshared) (l : oloc) : option (oshared * oloc *
   let goto p := mkOL p (ol_throws l) in
   let touch r g := if getbl (o_alive g) r then g else mkO (o_word g) (o_refcount g) (o_alive g) (o_fdone g) (o_success g) (o_bad_access g + 1) in
   match ol_pc l with
+  | OEntry => match o_word g with Done => Some (g, goto ORetOk, []) | _ => Some (g, goto OStart, []) end
   | OStart =>
       (* the runner object is constructed on the caller's stack *)
       Some (mkO (o_word g) (setn (o_refcount g) tid 0) (setn (o_alive g) tid true) (setn (o_fdone g) tid false) (o_success g) (o_bad_access g),
@@ -109,7 +111,7 @@ Definition ostep (tid : nat) (g : oshared) (l : oloc) : option (oshared * oloc *
 
 Definition oinit (throws : list (list bool)) : oshared * list oloc :=
   let n := length throws in
-  (mkO Uninit (repeat 0 n) (repeat false n) (repeat false n) 0 0, map (fun t => mkOL OStart t) throws).
+  (mkO Uninit (repeat 0 n) (repeat false n) (repeat false n) 0 0, map (fun t => mkOL OEntry t) throws).
 
 (* flat interface: nthreads, per thread (len, throws...), -1, schedule -> [all returned?; successes; bad accesses; #ok returns; #exception returns] *)
 Fixpoint take_lists (n : nat) (l : list Z) : list (list bool) * list Z :=
